@@ -79,10 +79,16 @@ pub fn build(app: &Value) -> Ohkami {
             n => panic!("harness: {n} fangs"),
         }
     } else { with_fangs!(&fangs, |f| Ohkami::with(f, ())) };
+    apply_items(app, &mut oh);
+    oh
+}
+
+/// register the items of `app` (routes, mounts) directly on `oh`
+pub fn apply_items(app: &Value, oh: &mut Ohkami) {
     for item in app["items"].as_array().unwrap() {
         if let Some(m) = item.get("mount").and_then(Value::as_str) {
             let sub = build(&item["app"]);
-            Routing::apply(leak(m).By(sub), &mut oh);
+            Routing::apply(leak(m).By(sub), oh);
         } else {
             let route = leak(item["route"].as_str().unwrap());
             let id = item["h"].as_i64().unwrap();
@@ -98,10 +104,9 @@ pub fn build(app: &Value) -> Ohkami {
                     n => panic!("harness: {n} local fangs"),
                 };
             }
-            if let Some(hs) = hs { Routing::apply(hs, &mut oh); }
+            if let Some(hs) = hs { Routing::apply(hs, oh); }
         }
     }
-    oh
 }
 
 /// one request through `testing::oneshot`; returns (status, body text, log)
